@@ -20,6 +20,18 @@ Fixpoint sort_insert (x : str) (l : list str) : list str :=
 (* sorted(l) *)
 Definition str_sort (l : list str) : list str := fold_right sort_insert [] l.
 
+(* str.lower beyond ASCII: every case carries the table key -> key.lower() that Python computed for the keys
+   occurring in it (closed under lower); keys outside the table (none in a well-formed case) fall back to the
+   ASCII mapping.  The theorems are generic in `lower` (idempotent); idempotence of the table is re-checked by
+   the harness on every run. *)
+Fixpoint tbl_find (k : str) (t : list (str * str)) : option str :=
+  match t with
+  | [] => None
+  | (a, b) :: r => if str_eqb k a then Some b else tbl_find k r
+  end.
+Definition tbl_lower (t : list (str * str)) (k : str) : str :=
+  match tbl_find k t with Some l => l | None => lower k end.
+
 (* the instance *)
 Definition scid := cid str Z.
 Definition scis := cis str.
